@@ -110,6 +110,9 @@ def interpOp (s : IS) (op : Json) : P (IS × Json) := do
     return ({ s with world := w }, obs w .null)
   | [.str "snapshot", _, _] =>
     return (s, obs s.world .null)
+  | [.str "setclock", _, _] =>
+    -- the clock is outside the interpreter: its own time only changes when it executes
+    return (s, obs s.world .null)
   | _ => throw s!"bad op {op.compress}"
 
 def runInterp (j : Json) : P Json := do
